@@ -53,6 +53,20 @@ def mk_block(ctx, label):
                             "open_brace": Opaque("ob"), "close_brace": Opaque("cb")}, partial=True)
 
 
+def mk_pending_expr(kind):
+    """A pending entry that is only classified (popper or not) and never executed: no shape forks."""
+    blk = Struct("Block", {"exprs": Vec([]), "open_brace": Opaque("ob"), "close_brace": Opaque("cb")}, partial=True)
+    sub = tok_expr("sub")
+    e = {"Match": lambda: Enum("Expression_", "Match", [sub, Vec([(Struct("Pattern", {"variant_sym": Opaque("vsym"), "payload": Opaque("pl")},
+                                                                             partial=True), blk)])]),
+         "If": lambda: Enum("Expression_", "If", [sub, blk, NONE]),
+         "While": lambda: Enum("Expression_", "While", [sub, blk]),
+         "ForIn": lambda: Enum("Expression_", "ForIn", [Opaque("dest"), sub, blk]),
+         "Try": lambda: Enum("Expression_", "Try", [blk, Opaque("sym"), blk])}[kind]()
+    return Rc(Struct("Expression", {"expr_": e, "position": Opaque("pos"), "value_is_used": Opaque("used"), "id": Opaque("id"),
+                                    "__kind": kind}, partial=True))
+
+
 def mk_kind_expr(ctx, P, kind, used=None):
     """An Expression of the given kind with arbitrary (opaque) parts and real Blocks."""
     sub = tok_expr("sub")
@@ -117,7 +131,7 @@ def run_arm(P, ctx, kind, st, base_blocks=3):
 def main():
     C = Check("C06", "block-local variables never outlive their block")
     P = M.program()
-    max_inner = 3 if C.tier == "quick" else 4
+    max_inner = 3 if C.tier == "quick" else 5
     C.bounds = {"frames": 1, "inner_entries_above_loop": f"0..{max_inner}", "block_exprs": "0..1 per block",
                 "match_cases": "1..2", "steps": "one eval_expr step per obligation; break/continue + loop continuation"}
     C.assumptions += M.NATIVE_NOTES + [
@@ -260,7 +274,7 @@ def main():
                 inner_kinds.append("tok")
             else:
                 st, k = popper_classes[c - 1]
-                inner.append((mk_state(st), mk_kind_expr(ctx, P, k)))
+                inner.append((mk_state(st), mk_pending_expr(k)))
                 inner_kinds.append(k)
         n_poppers = sum(1 for k in inner_kinds if k != "tok")
         pre_loop_blocks = 1
@@ -391,7 +405,7 @@ def main():
 
     all_popper_classes = sorted(poppers)
 
-    max_inner_c = min(max_inner, 3)    # every popper class at every position: 3 deep is ~60k paths
+    max_inner_c = min(max_inner, 4)
 
     def runc(ctx):
         n_inner = ctx.choose([True] * (max_inner_c + 1))
@@ -403,7 +417,7 @@ def main():
                 inner_kinds.append("tok")
             else:
                 st, k = all_popper_classes[c - 1]
-                inner.append((mk_state(st), mk_kind_expr(ctx, P, k)))
+                inner.append((mk_state(st), mk_pending_expr(k)))
                 inner_kinds.append(k)
         blocks = 1 + sum(1 for k in inner_kinds if k != "tok")
         frame = M.mk_frame(values=[M.mk_value(Opaque("bottom")), M.mk_value(Opaque("retval"))], exprs=inner, nblocks=blocks)
